@@ -404,6 +404,20 @@ static int do_check(const std::string& prop, int tier, uint64_t base_seed, int j
 
 	printf("check %s tier=%s runs=%llu cases=%llu commands=%llu distinct_nontrivial=%llu interleavings=%zu violations=%d cross=%zu wall=%.1fs\n", prop.c_str(), tier ? "thorough" : "quick",
 		(unsigned long long)a.runs, (unsigned long long)a.cases, (unsigned long long)a.commands, (unsigned long long)distinct_nt, a.interleavings.size(), violations, a.cross.size(), wall);
+	if (!a.own_viol.empty()) {
+		std::map<std::string, int> cc;
+		std::map<std::string, std::string> ex;
+		for (auto& v : a.own_viol) {
+			// group by class and by the "io cache N" / option part of the message when present
+			std::string key = v.str("cls");
+			std::string m = v.str("msg");
+			size_t q = m.find("io cache ");
+			if (q != std::string::npos) key += " [" + m.substr(q, m.find_first_of(":+ ", q + 9) - q) + "]";
+			cc[key]++;
+			if (!ex.count(key)) ex[key] = m.substr(0, 260);
+		}
+		for (auto& kv : cc) printf("  own-violation class %s x%d e.g. %s\n", kv.first.c_str(), kv.second, ex[kv.first].c_str());
+	}
 	if (!a.cross.empty()) {
 		std::map<std::string, int> cc;
 		for (auto& c : a.cross) cc[c.str("prop") + "/" + c.str("cls")]++;
